@@ -37,8 +37,15 @@ THEOREMS = {
             "Rot.C14_dated_exactly_one_file", "Rot.C14_dated_write_keeps_all_without_overwrite", "Rot.C14_dated_restart_leaves_files",
             "Rot.C14_dated_same_second_restart_clobbers", "Rot.C14_dated_backwards_restart_breaks_order",
             "Rot.C14_dated_backup_bound_across_restarts_fails",
+            "Rot.C14_dated_sequence", "Rot.C14_dated_untracked_untouched", "Rot.restart_dated_diskSeq_suffix",
+            # audit round (Props/C14More.lean): the sequence as an equation, named exclusions, the JSON sink's two sizes
+            "Rot.C14_index_sequence_eq", "Rot.write_dropped", "Rot.C14_index_nothing_dropped_without_overwrite",
+            "Rot.C14_junk_removed_by_cleanup", "Rot.C14_write_mode_without_cleanup_overwrites",
+            "Rot.C14_F30_json_counts_statement_size", "Rot.writeC_self",
+            "Rot.write_limInv_dated", "Rot.C14_index_all_files_within_limit", "Rot.write_limInv", "Rot.restart_limInv", "Rot.C14_stopped_file_rotated_oversized",
             # rendered names for any base file name (Props/C14Render.lean)
             "Rot.C14_render_injective", "Rot.C14_render_collides_across_schemes", "Rot.C14_rendered_names_distinct_partial",
+            "Rot.C14_rendered_names_distinct", "Rot.renderSfx_inj", "Rot.renderSfx_dotFree_ne_nil", "Rot.civil_eq",
             "Rot.C14_scan_sees_rotated", "Rot.C14_F28_no_extension_scan_blind", "Rot.C14_F29_append_option_scan_blind",
             "Rot.C14_F28_blind_restart_loses_statements", "Rot.splitExt_spec", "Rot.getFilename_ext", "Rot.getFilename_noext",
             "Obligations.rot_extraction_complete", "Obligations.rot_size_facts_hold", "Obligations.rot_defaults", "Obligations.rot_enums",
@@ -46,16 +53,18 @@ THEOREMS = {
     "C15": ["Rot.C15_grid", "Rot.C15_grid_least", "Rot.C15_first_point", "Rot.C15_separates", "Rot.C15_shares",
             "Rot.C15_suffix_of_opening_instant", "Rot.C15_composes_with_C14", "Rot.C15_F9_record_anchored_breaks_grid",
             "Rot.advance_loop", "Rot.gridInv_step",
+            "Rot.C15_separates_across_restarts", "Rot.C15_not_due_across_restarts", "Rot.C15_composition_index",
+            "Rot.C15_composition_dated", "Rot.run_append",
             "Rot.C15_separates_on_schedule", "Rot.C15_not_due_on_schedule", "Rot.pre_nil_of_pos",
             "Obligations.rot_time_extraction_complete", "Obligations.rot_time_facts_hold", "Obligations.rot_advances_from_schedule",
             "Obligations.C15_extracted"],
 }
-MODULES = {"C14": ["QuillModel.Props.C14", "QuillModel.Props.C15Schedule", "QuillModel.Props.C14Dated", "QuillModel.Props.C14Render"], "C15": ["QuillModel.Props.C15", "QuillModel.Props.C15Schedule"]}
+MODULES = {"C14": ["QuillModel.Props.C14", "QuillModel.Props.C15Schedule", "QuillModel.Props.C14Dated", "QuillModel.Props.C14Render", "QuillModel.Props.C14More", "QuillModel.Props.C14DatedLimit"], "C15": ["QuillModel.Props.C15", "QuillModel.Props.C15Schedule", "QuillModel.Props.C15Compose"]}
 OBLIG = {"C14": ["QuillModel.Obligations.RotSize"], "C15": ["QuillModel.Obligations.RotTime"]}
 
 C14_ORACLES = ("dup-id", "torn", "not-in-cur", "order", "not-suffix", "over-limit", "backup-bound", "backup-shrink", "ow-off-deleted")
 C15_ORACLES = ("time-merge", "time-split", "suffix", "grid", "dst-drift")
-C15_COMPOSITION = ("dup-id", "torn", "not-in-cur", "order", "not-suffix", "backup-bound", "ow-off-deleted")
+C15_COMPOSITION = ("dup-id", "torn", "not-in-cur", "order", "not-suffix", "backup-bound", "ow-off-deleted", "over-limit")
 
 # known-finding classes, recognised by the *input class* printed on the ORACLE line
 FINDING_TEXT = {
@@ -97,8 +106,6 @@ def classify(line):
         return "F14"
     if sch in ("D", "T") and f.get("unrecovered") == "1" and k in ("not-suffix", "backup-bound", "backup-shrink", "ow-off-deleted"):
         return "F15"
-    if k == "backup-shrink" and f.get("overstart") == "1":
-        return "F18"
     # the classes found with other base names / sinks (input class = what is printed about the case, never the oracle text)
     lost = ("ow-off-deleted", "not-suffix", "order", "dup-id", "backup-bound", "backup-shrink")
     if k == "over-limit" and f.get("sink") == "J":
@@ -109,6 +116,8 @@ def classify(line):
         return "F28"
     if f.get("base") == "numstem" and sch == "I" and int(f.get("arestarts", "0") or 0) >= 1 and k in lost + ("not-in-cur",):
         return "F31"
+    if k == "backup-shrink" and f.get("overstart") == "1":
+        return "F18"
     return None
 
 
@@ -184,7 +193,7 @@ def run(prop, tier):
         "theorems: naming scheme and base file name fixed for the life of a directory, a base name whose rotated files the start-up scan can see (non-empty extension: `scanSees_rotated`; the others are finding F28, reproduced by the model through `restartBlind`), FilenameAppendOption::None, one size per statement (FileSink). The harness additionally drives, with the property oracle only: restarts that change the naming scheme, RotatingJsonFileSink (F30), the FilenameAppendOptions (F29: the name carries the wall-clock date)",
         "std::filesystem resolves every spelling of the directory (relative, ./, x/../x, symlink, trailing /.) to the same directory; the model has no spelling parameter — that the sink's recovery and rotation do not depend on it is tested by the harness (op parameter sp=, ignored by the driver), not proved",
         "timestamps are natural numbers of nanoseconds (no uint64 wrap); the zone is a constant UTC offset in the theorems (mktime = local seconds − offset)",
-        "names are structured values (suffix, index) in the invariants; their rendering for any base file name (extract_stem_and_extension, _append_string/_index_to_filename, _get_filename) is part of the model (Rot/Render.lean), proved injective on the names of one scheme for every base name given an injective, dot-free suffix rendering (`C14_render_injective`), and every listing / _created_files entry is compared as a rendered string; the calendar arithmetic of strftime %Y%m%d[_%H%M%S] is compared by the harness, not proved injective",
+        "names are structured values (suffix, index) in the invariants; their rendering for any base file name (extract_stem_and_extension, _append_string/_index_to_filename, _get_filename) is part of the model (Rot/Render.lean), proved injective on the names of one scheme for every base name given an injective, dot-free suffix rendering (`C14_render_injective`), and every listing / _created_files entry is compared as a rendered string; the calendar strings %Y%m%d[_%H%M%S] are proved dot-free and injective from the epoch on (`renderSfx_inj`, via the C13 civil round trip) and compared with the real sink's by the harness",
     ]
     ps = ck.proof_side(MODULES[prop], THEOREMS[prop], OBLIG[prop])
     ex = ck.extracted
